@@ -709,20 +709,20 @@ Section Raw.
       rewrite E in *. rewrite flat_map_app. cbn [flat_map].
       rewrite flat_map_nil.
       2:{ intros x Hx. apply Out; [apply in_or_app; now left|]. destruct (chain_split _ _ _ x ar Hchain Hx) as (_ & _ & O); [now left|].
-          pose proof (achain_in _ _ ar Hchain) as Ha. apply tlt_neq. eapply tlt_trans; [apply Ha; apply in_or_app; right; now left|exact O]. }
-      rewrite Out; [|apply in_or_app; right; now left|apply tlt_neq; apply (achain_in _ _ ar Hchain); apply in_or_app; right; now left].
+          pose proof (achain_in _ _ ar Hchain) as Ha. apply tlt_neq2. eapply tlt_trans; [apply Ha; apply in_or_app; right; now left|exact O]. }
+      rewrite Out; [|apply in_or_app; right; now left|apply tlt_neq2; apply (achain_in _ _ ar Hchain); apply in_or_app; right; now left].
       cbn [app]. destruct Q as [|nx Q']; [reflexivity|]. cbn [flat_map hd].
       apply achain_app in Hchain as [top' C]. destruct C as (_ & _ & C). pose proof C as C0. destruct C as (C1 & C2 & C3).
       rewrite flat_map_nil.
       2:{ intros x Hx. apply Out; [apply in_or_app; right; right; now right|].
           destruct (achain_after _ _ _ C0 x Hx) as [O1 O2].
-          assert (T : tlt (a_of x) (Fin (b_of ar))). { eapply tleb_tlt_trans; eauto. rewrite <- C1. apply (achain_in _ _ nx C0). now left. }
-          now apply tlt_neq. }
+          assert (T : tlt (a_of x) (Fin (b_of ar))) by (eapply tleb_tlt_trans; [exact O1|exact C2]).
+          now apply tlt_neq1. }
       rewrite app_nil_r. apply filter_all. intros te Hte. rewrite Forall_forall in Hevt.
       assert (Hnx : In nx (P ++ ar :: nx :: Q')) by (apply in_or_app; right; right; now left). specialize (Hevt _ Hnx).
       rewrite Forall_forall in Hevt. unfold ft. rewrite (Hevt _ Hte), C1. apply teqb_refl. }
     rewrite (flat_map_ext _ (fun k => filter (fun te => Nat.eqb (ev_kind te) k) (ar_evs (hd dar Q)))).
-    2:{ intros k. rewrite filter_comm. now rewrite Fa. }
+    2:{ intros k. rewrite filter_comm. exact (f_equal (filter (fun te : tevent R => Nat.eqb (ev_kind te) k)) Fa). }
     destruct Q as [|nx Q']; [reflexivity|]. cbn [hd]. rewrite Forall_forall in Hkind.
     destruct (Hkind nx) as (K & LK & FK); [rewrite E; apply in_or_app; right; right; now left|]. eapply kinds_all; eauto.
   Qed.
@@ -764,18 +764,21 @@ Section Raw.
     | [] => []
     end.
 
+  Definition marg_one (ar : arnd R) (Q : list (arnd R)) (id : nat) : list (event R) :=
+    match Q with
+    | nx :: _ => match ar_ev nx with SRemove k => if Nat.eqb id (nth1 k (ids_of ar)) then [EMarg id] else [] | _ => [] end
+    | [] => []
+    end.
+
   Lemma marg_contrib P ar Q id : ann = P ++ ar :: Q -> (id < n)%nat ->
     let d := deme_of id in
     map snd (filter (fun te => teqb (Fin (fst te)) (Fin (b_of ar)))
       (if negb (mem (d_id d) (ids_of (last ann dar)))
           && forallb (fun s => negb (tleb (d_start s) (Fin (d_end d)))) (successors G (d_id d))
        then [(d_end d, EMarg (d_id d))] else []))
-    = match Q with
-      | nx :: _ => match ar_ev nx with SRemove k => if Nat.eqb id (nth1 k (ids_of ar)) then [EMarg id] else [] | _ => [] end
-      | [] => []
-      end.
+    = marg_one ar Q id.
   Proof.
-    intros E L d. assert (Har : In ar ann) by (rewrite E; apply in_or_app; right; now left).
+    intros E L d. unfold marg_one. assert (Har : In ar ann) by (rewrite E; apply in_or_app; right; now left).
     pose proof Hids as Hids'. rewrite Forall_forall in Hids'. destruct (Hids' _ Har) as [A _]. pose proof (asc_NoDup _ _ _ A) as ND.
     assert (Did : d_id d = id) by reflexivity. rewrite Did.
     set (cond := negb (mem id (ids_of (last ann dar))) && forallb (fun s => negb (tleb (d_start s) (Fin (d_end d)))) (successors G id)).
@@ -787,16 +790,16 @@ Section Raw.
       destruct (deme_span id x L Hx' M) as [_ S2]. fold d in S2.
       assert (C' : achain top ((P ++ [ar]) ++ Q)) by (rewrite <- app_assoc; rewrite <- E; exact Hchain).
       destruct (chain_split _ _ _ ar x C') as (_ & O & _); [apply in_or_app; right; now left|auto|].
-      apply tlt_neq. eapply tleb_tlt_trans; eauto. }
+      apply tlt_neq1. eapply tleb_tlt_trans; eauto. }
     destruct (mem id (ids_of ar)) eqn:Min.
     2:{ (* not alive in this window: it does not end here *)
       assert (K : teqb (Fin (d_end d)) (Fin (b_of ar)) = false).
       { destruct (deme_last id L) as (t & Ht & Mt & Et). fold d in Et. rewrite Et. rewrite E in Ht, Hchain.
         apply in_app_or in Ht as [Ht|[<-|Ht]].
-        - destruct (chain_split _ _ _ t ar Hchain Ht) as (_ & O & _); [now left|]. now apply tlt_neq in O as [_ O].
+        - destruct (chain_split _ _ _ t ar Hchain Ht) as (_ & O & _); [now left|]. now apply tlt_neq2.
         - unfold inA in Mt. congruence.
         - assert (C' : achain top ((P ++ [ar]) ++ Q)) by (rewrite <- app_assoc; exact Hchain).
-          destruct (chain_split _ _ _ ar t C') as (_ & O & _); [apply in_or_app; right; now left|auto|]. now apply tlt_neq in O as [O _]. }
+          destruct (chain_split _ _ _ ar t C') as (_ & O & _); [apply in_or_app; right; now left|auto|]. now apply tlt_neq1. }
       rewrite (Nil (or_introl K)). destruct Q as [|nx Q']; auto. destruct (Hstep P ar nx Q' E) as (next & rb & -> & _ & Kr).
       cbn [annotate ar_ev]. destruct (r_ev (fst rb)) eqn:Eev; auto.
       destruct Kr as (Kev & _). rewrite Eev in Kev. destruct Kev as [_ Kk].
